@@ -94,6 +94,8 @@ func checkC43(r *ev.Run) {
 				reason = "importer-exited/pool-balance-ne-staked-sum"
 			case strings.Contains(low, "invalid acl") && strings.Contains(low, "not a recognized parameter"):
 				reason = "importer-exited/acl-lists-parameter-of-inactive-feature"
+			case strings.Contains(low, "the applications must be staked at genesis"):
+				reason = "importer-exited/unstaking-application-refused"
 			case strings.Contains(low, "panic"):
 				reason = "importer-exited/panic"
 			}
